@@ -346,3 +346,69 @@ func zzH_C12_lookback() {
 	zzverif.Reach("lookback-found")
 	zzverif.Assert(err == nil && yp != nil && yp.Version == want.CurrVersion, "parameters of the version active 8 rounds back")
 }
+
+// ---- the import path ----
+
+var zzC12Imported bool
+
+//verif:replace (*$M/core.BlockChain).insertChain zzC12InsertChain
+//verif:noop (*$M/core.BlockChain).PostChainEvents
+
+func zzC12InsertChain(bc *BlockChain, chain types.Blocks) (int, []interface{}, []*types.Log, error) {
+	zzC12Imported = true
+	return 0, nil, nil, nil
+}
+
+// zzH_C12_import: the real InsertChain (sanity checks, version-state check, then the block
+// import proper, here a recording stand-in) on a batch of one or two linked blocks with
+// arbitrary version fields after an arbitrary known parent: the import proper starts only
+// if the pure verifier accepts every consecutive pair of the batch - also when the batch
+// carries its parent's version state over unchanged.
+func zzH_C12_import() {
+	zzC12Install()
+	parent, n0 := zzC12Header("parent")
+	cv := zzverif.Choose("parent.version", 3) + 1
+	zzverif.Assume(parent.CurrVersion == params.YouVersion(cv) && n0 >= 1)
+	zzC12DB = map[uint64]*types.Header{n0: parent}
+	k := zzverif.Choose("batchLength", 2) + 1
+	var blocks types.Blocks
+	prevHash := zzC12HeaderHash(parent)
+	headers := make([]*types.Header, k)
+	for i := 0; i < k; i++ {
+		h, n := zzC12Header("b" + string(rune('1'+i)))
+		zzverif.Assume(n == n0+uint64(i)+1)
+		h.ParentHash = prevHash
+		prevHash = zzC12HeaderHash(h)
+		headers[i] = h
+		blocks = append(blocks, types.NewBlockWithHeader(h))
+	}
+	zzC12Imported = false
+	bc := &BlockChain{hc: &HeaderChain{}}
+	var err error
+	halted := false
+	func() {
+		defer func() {
+			if r := recover(); r != nil {
+				halted = true
+			}
+		}()
+		err = bc.InsertChain(blocks)
+	}()
+	if halted {
+		zzverif.Reach("halted")
+		return
+	}
+	if !zzC12Imported {
+		zzverif.Assert(err != nil, "a batch that is not imported is reported as refused")
+		zzverif.Reach("refused")
+		return
+	}
+	zzverif.Reach("imported")
+	prev := parent
+	for i := 0; i < k; i++ {
+		perr, ph := zzC12Verify(prev, headers[i])
+		zzverif.Assert(perr == nil && !ph, "the import proper starts only if the pure verifier accepts every consecutive pair of the batch")
+		prev = headers[i]
+	}
+	zzverif.Reach("end")
+}
